@@ -450,6 +450,16 @@ func c16Body(sc c16Scn, res *string) func(x *sched.Exec) {
 			after    []func() // use of refused instruments after the join: must stay harmless
 		}
 		outs := make([]out, len(sc.threads))
+		// G13: tracers handed out before anybody installs an SDK
+		var preTr [2]trace.Tracer
+		var preLost atomic.Int32
+		if strings.HasPrefix(sc.name, "G13-") {
+			preTr[0], preTr[1] = TracerProvider().Tracer("pre-a"), TracerProvider().Tracer("pre-b")
+		}
+		var preCtr metric.Int64Counter
+		if strings.HasPrefix(sc.name, "G14-") {
+			preCtr, _ = MeterProvider().Meter("pre").Int64Counter("pc")
+		}
 		var wg vsync.WaitGroup
 		wg.Add(len(sc.threads))
 		for ti, ops := range sc.threads {
@@ -465,6 +475,40 @@ func c16Body(sc c16Scn, res *string) func(x *sched.Exec) {
 					case "InstallT":
 						SetTracerProvider(c16TP{s: sdk})
 						tinstalledAt.Store(int64(x.Step()) + 1)
+					case "Install2Span":
+						// a second installation racing the first one: once THIS call has returned, the tracers
+						// handed out earlier forward (to whichever SDK got them), however far the other call is
+						SetTracerProvider(c16TP{s: sdk})
+						for i, tr := range preTr {
+							name := fmt.Sprintf("pre%d-%d", val, i)
+							_, sp := tr.Start(ctx, name)
+							sp.End()
+							sdk.mu.Lock()
+							n := 0
+							for _, got := range sdk.spans {
+								if strings.HasSuffix(got, "/"+name) {
+									n++
+								}
+							}
+							sdk.mu.Unlock()
+							if n != 1 {
+								preLost.Add(1)
+							}
+						}
+					case "Install2Ctr": // the same for meters: an instrument created before any installation
+						SetMeterProvider(c16MP{s: sdk})
+						preCtr.Add(ctx, int64(val))
+						sdk.mu.Lock()
+						n := 0
+						for _, v := range sdk.values["pc"] {
+							if v == val {
+								n++
+							}
+						}
+						sdk.mu.Unlock()
+						if n != 1 {
+							preLost.Add(1)
+						}
 					case "SelfT": // documented no-op (save-and-restore pattern): must not use up the delegation
 						SetTracerProvider(TracerProvider())
 					case "SelfM":
@@ -607,6 +651,11 @@ func c16Body(sc c16Scn, res *string) func(x *sched.Exec) {
 			})
 		}
 		wg.Wait()
+		if n := preLost.Load(); n != 0 && strings.HasPrefix(sc.name, "G13-") {
+			x.Fail("C16|span-after-install-not-forwarded|second SetTracerProvider returned while the first was still connecting tracers", "%d span(s) started on tracers handed out before any installation, after a SetTracerProvider call had returned, did not reach an SDK exactly once", n)
+		} else if n != 0 {
+			x.Fail("C16|measurement-after-install-not-forwarded-exactly-once|second SetMeterProvider returned while the first was still connecting instruments", "%d measurement(s) on an instrument created before any installation, made after a SetMeterProvider call had returned, did not reach the SDK exactly once", n)
+		}
 		// ---- after the join: everything handed out earlier must now be connected
 		minstalled, tinstalled := installedAt.Load() != 0, tinstalledAt.Load() != 0
 		late := 1000
@@ -735,6 +784,8 @@ func c16Jobs(thorough, race bool) []c16Job {
 		{"G9-self-set-then-install", [][]string{{"Span", "Ctr", "Inject", "SelfT", "SelfM", "SelfP", "InstallT", "InstallM", "InstallP"}, {"Span", "Ctr", "Inject"}}},
 		{"G10-self-set-racing-install", [][]string{{"SelfT", "SelfM"}, {"InstallT", "InstallM"}, {"Span", "Ctr"}}},
 		{"G12-two-readers-collect", [][]string{{"CbY", "InstallM", "Collect"}, {"Collect"}}},
+		{"G13-two-installations-racing-tracers-handed-out-before", [][]string{{"InstallT"}, {"Install2Span"}}},
+		{"G14-two-installations-racing-instrument-created-before", [][]string{{"InstallM"}, {"Install2Ctr"}}},
 		{"G11-sdk-refuses-instruments", [][]string{{"BadSync", "Ctr", "BadAsync", "InstallM"}, {"BadSync", "Ctr"}, {"BadAsync", "Cb"}}},
 	}
 	p := 3
